@@ -415,3 +415,127 @@ def register(reg):
 
     for s in (HandleCancel, HandleWait, RunBackgroundTask, FactoryAllHandles, FactoryStartSoon, FactoryStart, FactoryRunBackgroundTask):
         reg.add(s)
+
+
+# =============================================================================================== Context.start_service_task (C08)
+
+SST = "_context.Context.start_service_task"
+
+
+class FinalizeServiceTask(FnSpec):
+    """C08: the finaliser registered by start_service_task: 'cancel' -> cancel the task; callable -> call it exactly once (await its
+    awaitable), cancel the task iff it raised; None -> neither; then, on every path, wait until the task AND its context have finished."""
+    qual = SST + ".finalize_service_task"
+    properties = ("C08", "C09")
+    modifies = "rely"
+    suspends = True
+    cell_types = {"task_handle": INST("TaskHandle"), "teardown_action": ANY, "name": ANY}
+
+    def init_ghost(self, eng, st):
+        st.ghost["n_action_calls"] = 0
+        st.ghost["action_raised"] = False
+
+    def _action(self, st):
+        return st.fld("cell:teardown_action", st.ghost["outer_env"])
+
+    def on_opaque_call(self, eng, st, f, args, anchor):
+        eng.oblige(st, "post", "calls-only-the-teardown-action", f.t == self._action(st), anchor)
+        eng.oblige(st, "post", "teardown-action-called-without-arguments", z3.BoolVal(len(args) == 0), anchor)
+        st.ghost["n_action_calls"] = st.ghost["n_action_calls"] + 1
+
+    def after_opaque_call(self, eng, st_before, st_after, f, args, result, exc, anchor):
+        st_after.ghost = dict(st_after.ghost)
+        if exc is not None:
+            st_after.ghost["action_raised"] = True
+        else:
+            st_after.ghost["pending_awaitable"] = result.t
+
+    def on_await(self, eng, st, awaited, anchor):
+        eng.oblige(st, "post", "awaits-the-actions-awaitable", awaited.t == st.ghost.get("pending_awaitable", VNone), anchor)
+
+    def after_await(self, eng, st_before, st_after, awaited, result, exc, anchor):
+        if exc is not None:
+            st_after.ghost = dict(st_after.ghost)
+            st_after.ghost["action_raised"] = True
+
+    def _clauses(self, F, normal):
+        g = F.new_st.ghost
+        env = F.old_st.ghost["outer_env"]
+        action = F.old.fld("cell:teardown_action", env)
+        handle = F.old.fld("cell:task_handle", env)
+        tr = F.new_st.trace
+        cancels = [e for e in tr if e[0] == "spec_call" and e[1] == "_concurrent.TaskHandle.cancel"]
+        waits = [e for e in tr if e[0] == "spec_call" and e[1] == "_concurrent.TaskHandle.wait_finished"]
+        n, raised = g["n_action_calls"], g["action_raised"]
+        is_cancel = action == sid("cancel")
+        is_none = action == VNone
+        out = [
+            ("action-called-exactly-once-iff-callable", z3.If(z3.Or(is_cancel, is_none), z3.BoolVal(n == 0), z3.BoolVal(n == 1))),
+            ("cancelled-as-the-action-dictates", z3.If(is_cancel, z3.BoolVal(len(cancels) == 1),
+                                                       z3.If(is_none, z3.BoolVal(len(cancels) == 0),
+                                                             z3.BoolVal(len(cancels) == (1 if raised else 0))))),
+            ("cancels-and-waits-for-its-own-task", z3.And(*[e[2]["self"].t == handle for e in cancels + waits])),
+        ]
+        if normal:
+            out += [("waits-for-the-task-last", z3.BoolVal(len(waits) == 1 and tr and [e for e in tr if e[0] == "spec_call"][-1] is waits[-1])),
+                    ("returns-only-after-task-and-context-finished", ev_is_set(F.new, finished_event(F.old, Val.a(handle))))]
+        return out
+
+    def local_ensures(self, F):
+        return self._clauses(F, True)
+
+    def local_raises(self, F):
+        # the only way out by exception is the wait itself being cancelled (excluded by the statement) - still no extra calls
+        return self._clauses(F, False)
+
+
+class StartServiceTask(FnSpec):
+    """C08 / C01 route 4: validates teardown_action first; starts run_background_task(func, self, handle) in the context's task group;
+    only after the task has started registers the finaliser (so it runs before every callback registered earlier)."""
+    qual = SST
+    properties = ("C08", "C01", "C09", "C15")
+    param_types = {"func": ANY, "name": ANY, "teardown_action": ANY}
+    modifies = "rely"
+    suspends = True
+
+    def requires(self, F):
+        c = F.addr("self")
+        return [("initialised-context", is_ctx(F.old, c))]
+
+    def _facts(self, F):
+        tr = F.new_st.trace
+        spawns = [e for e in tr if e[0] == "spawn"]
+        regs = [e for e in tr if e[0] == "spec_ret" and e[1] == "_context.Context.add_teardown_callback"]
+        return tr, spawns, regs
+
+    def local_ensures(self, F):
+        tr, spawns, regs = self._facts(F)
+        ta = F.t("teardown_action")
+        out = [("teardown_action-was-valid", z3.Or(ta == sid("cancel"), ta == VNone, callable_u(ta))),
+               ("one-task-started-then-one-finaliser-registered", z3.BoolVal(len(spawns) == 1 and len(regs) == 1 and tr.index(spawns[0]) < tr.index(regs[0])))]
+        if len(spawns) == 1 and len(regs) == 1:
+            sp, rg = spawns[0], regs[0]
+            handle = sp[2][3].t if len(sp[2]) > 3 else VNone
+            out += [
+                ("spawned-in-own-task-group", sp[1].t == F.old.fld("_task_group", F.addr("self"))),
+                ("runs-run_background_task(func, self, handle)", z3.And(sp[2][0].t == con("func:_concurrent.run_background_task"), sp[2][1].t == F.t("func"),
+                                                                       sp[2][2].t == F.t("self"), F.fresh(handle))),
+                ("finaliser-registered-on-this-context", z3.And(rg[2]["self"].t == F.t("self"), rg[2]["pass_exception"].t == vbool(False))),
+                ("finaliser-is-the-closure-over-this-handle", z3.And(
+                    rg[2]["callback"].t == Val.bm(vref(F.new_st.envref), z3.IntVal(METHS.id("closure:" + FinalizeServiceTask.qual))),
+                    F.new.fld("cell:task_handle", F.new_st.envref) == handle,
+                    F.new.fld("cell:teardown_action", F.new_st.envref) == ta)),
+            ]
+        return out
+
+    def local_raises(self, F):
+        tr, spawns, regs = self._facts(F)
+        ta = F.t("teardown_action")
+        valid = z3.Or(ta == sid("cancel"), ta == VNone, callable_u(ta))
+        return [("invalid-teardown_action-raises-ValueError-nothing-started", z3.Implies(z3.Not(valid), z3.And(F.exc_is("ValueError"), z3.BoolVal(not spawns and not regs)))),
+                ("no-finaliser-unless-the-task-started", z3.BoolVal(len(regs) == 0))]
+
+
+def register2(reg):
+    reg.add(FinalizeServiceTask)
+    reg.add(StartServiceTask)
